@@ -165,6 +165,10 @@ def search(binary, ty, fns, seed=0, nsamples=60):
             return dict(type=ty, function=fn, operands=ops, scalars=sc, observed="panic", expected=exp)
         got = [[None if t == "_" else float(t) for t in blk.split()] for blk in ln[3:].split(" ; ")]
         ok = len(got) == len(exp) and all(len(g) == len(e) and all(close(x, y) for x, y in zip(g, e)) for g, e in zip(got, exp))
+        if ok and fn in ("exp_m1", "ln_1p") and got and got[0] and exp[0][0] not in (None, 0.0):
+            # these two exist for their accuracy at tiny arguments: the real part must agree to relative accuracy
+            g0 = got[0][0] if got[0][0] is not None else 0.0
+            ok = abs(g0 - exp[0][0]) <= 1e-9 * abs(exp[0][0])
         if not ok:
             return dict(type=ty, function=fn, operands=ops, scalars=sc, observed=got, expected=exp)
     return None
